@@ -169,6 +169,9 @@ struct Case {
     imm_extras: Vec<ImmExtra>,
     anc: AncSpec,
     faults: Vec<Fault>,
+    /// serve the mirrors over loopback HTTP (streaming branch of the downloader) instead of file:// locations
+    #[serde(default)]
+    http: bool,
 }
 
 // ------------------------------------------------------------------------------------------------
@@ -373,6 +376,12 @@ struct World {
     genesis_vk: String,
     magic: Option<&'static str>,
     splice_preserved: bool,
+    /// do not use the memoized client (HTTP cases: connection pools must not outlive their runtime)
+    fresh_client: bool,
+    anc_tar: Vec<u8>,
+    anc_offsets: Vec<usize>,
+    mirror0: PathBuf,
+    ext: &'static str,
 }
 
 fn resolve_range(spec: &RangeSpec, beacon: u64) -> (ImmutableFileRange, Option<(u64, u64)>) {
@@ -454,11 +463,22 @@ fn put(dir: &Path, rel: &str, data: &[u8]) {
     std::fs::write(&p, data).expect("write");
 }
 
+/// like `put`, but a layout that cannot be created (conflicting pre-existing entries) is simply skipped
+fn try_put(dir: &Path, rel: &str, data: &[u8]) {
+    let p = dir.join(rel);
+    if let Some(parent) = p.parent() {
+        if std::fs::create_dir_all(parent).is_err() {
+            return;
+        }
+    }
+    let _ = std::fs::write(&p, data);
+}
+
 fn in_range(req: Option<(u64, u64)>, n: u64) -> bool {
     matches!(req, Some((lo, hi)) if lo <= n && n <= hi)
 }
 
-fn build_world(c: &Case, root: &Path, rep: &mut Report) -> World {
+fn build_world(c: &Case, root: &Path, http_base: Option<&str>, rep: &mut Report) -> World {
     let beacon = c.beacon.clamp(1, 6) as u64;
     let world = root.join("world");
     let target = world.join("db");
@@ -505,11 +525,11 @@ fn build_world(c: &Case, root: &Path, rep: &mut Report) -> World {
         match f {
             Fault::MoveBlockedByDir => {
                 let first_ledger = anc_paths.iter().find(|p| p.starts_with("ledger/")).unwrap();
-                put(&target, &format!("{first_ledger}/occupied"), b"user directory in the way");
+                try_put(&target, &format!("{first_ledger}/occupied"), b"user directory in the way");
             }
             Fault::LedgerIsFile => {
                 if !target.join("ledger").exists() {
-                    put(&target, "ledger", b"a regular file named ledger");
+                    try_put(&target, "ledger", b"a regular file named ledger");
                 }
             }
             _ => {}
@@ -883,17 +903,21 @@ fn build_world(c: &Case, root: &Path, rep: &mut Report) -> World {
     // ---- message -----------------------------------------------------------------------------
     let algo = if c.zstd { "zstandard" } else { "gzip" };
     let n_mirrors = if c.mirror2 != 0 { 2 } else { 1 };
+    let mirror_url = |i: usize| match http_base {
+        Some(base) => format!("{base}/mirror{i}"),
+        None => format!("file://{}", mirrors[i].display()),
+    };
     let imm_locations: Vec<serde_json::Value> = (0..n_mirrors)
         .map(|i| {
             serde_json::json!({"type": "cloud_storage",
-                "uri": {"Template": format!("file://{}/{{immutable_file_number}}.{ext}", mirrors[i].display())},
+                "uri": {"Template": format!("{}/{{immutable_file_number}}.{ext}", mirror_url(i))},
                 "compression_algorithm": algo})
         })
         .collect();
     let anc_locations: Vec<serde_json::Value> = (0..n_mirrors)
         .map(|i| {
             serde_json::json!({"type": "cloud_storage",
-                "uri": format!("file://{}/ancillary.{ext}", mirrors[i].display()),
+                "uri": format!("{}/ancillary.{ext}", mirror_url(i)),
                 "compression_algorithm": algo})
         })
         .collect();
@@ -948,6 +972,11 @@ fn build_world(c: &Case, root: &Path, rep: &mut Report) -> World {
         genesis_vk,
         magic,
         splice_preserved,
+        fresh_client: false,
+        anc_tar,
+        anc_offsets,
+        mirror0: mirrors[0].clone(),
+        ext,
     }
 }
 
@@ -963,8 +992,10 @@ thread_local! {
 
 fn client_for(w: &World) -> Result<Arc<CardanoDatabaseClient>, String> {
     CLIENTS.with(|cache| {
-        if let Some(c) = cache.borrow().get(&w.ancillary_vk) {
-            return Ok(c.clone());
+        if !w.fresh_client {
+            if let Some(c) = cache.borrow().get(&w.ancillary_vk) {
+                return Ok(c.clone());
+            }
         }
         let logger = slog::Logger::root(slog::Discard, slog::o!());
         let downloader =
@@ -977,22 +1008,109 @@ fn client_for(w: &World) -> Result<Arc<CardanoDatabaseClient>, String> {
             .build()
             .map_err(|e| format!("HARNESS client build: {e:#}"))?;
         let c = client.cardano_database_v2();
-        cache.borrow_mut().insert(w.ancillary_vk.clone(), c.clone());
+        if !w.fresh_client {
+            cache.borrow_mut().insert(w.ancillary_vk.clone(), c.clone());
+        }
         Ok(c)
     })
 }
 
-fn run_client(w: &World) -> Result<Result<(), String>, String> {
+fn run_client(w: &World, after_call: impl FnOnce()) -> Result<Result<(), String>, String> {
     catch(|| {
         let rt = tokio::runtime::Builder::new_current_thread().enable_all().build().expect("runtime");
         let res = rt.block_on(async {
             let client = client_for(w)?;
             client.download_unpack(&w.msg, &w.range, &w.target, w.options).await.map_err(|e| format!("{e:#}"))
         });
+        after_call();
         // dropping the runtime waits for the blocking unpack threads that may still be running after an abort
         drop(rt);
         res
     })
+}
+
+// ------------------------------------------------------------------------------------------------
+// loopback HTTP mirror (exercises the streaming branch of HttpFileDownloader)
+// ------------------------------------------------------------------------------------------------
+
+struct MirrorServer {
+    base: String,
+    stop: Arc<std::sync::atomic::AtomicBool>,
+    handle: Option<std::thread::JoinHandle<()>>,
+}
+
+impl MirrorServer {
+    fn start(root: &Path) -> Option<MirrorServer> {
+        use std::io::Read;
+        use std::sync::atomic::{AtomicBool, Ordering};
+        let listener = std::net::TcpListener::bind("127.0.0.1:0").ok()?;
+        listener.set_nonblocking(true).ok()?;
+        let port = listener.local_addr().ok()?.port();
+        let stop = Arc::new(AtomicBool::new(false));
+        let stop2 = stop.clone();
+        let root = root.to_path_buf();
+        let handle = std::thread::spawn(move || {
+            let mut workers = vec![];
+            while !stop2.load(Ordering::SeqCst) {
+                match listener.accept() {
+                    Ok((mut stream, _)) => {
+                        let root = root.clone();
+                        workers.push(std::thread::spawn(move || {
+                            let _ = stream.set_nonblocking(false);
+                            let _ = stream.set_read_timeout(Some(std::time::Duration::from_secs(5)));
+                            let mut req = Vec::new();
+                            let mut buf = [0u8; 1024];
+                            while !req.windows(4).any(|w| w == b"\r\n\r\n") && req.len() < 16384 {
+                                match stream.read(&mut buf) {
+                                    Ok(0) | Err(_) => break,
+                                    Ok(n) => req.extend_from_slice(&buf[..n]),
+                                }
+                            }
+                            let line = String::from_utf8_lossy(&req);
+                            let path = line.split_whitespace().nth(1).unwrap_or("/").trim_start_matches('/').to_string();
+                            let ok_name = path.split('/').count() == 2
+                                && (path.starts_with("mirror0/") || path.starts_with("mirror1/"))
+                                && !path.contains("..");
+                            let body = if ok_name { std::fs::read(root.join(&path)).ok() } else { None };
+                            match body {
+                                Some(b) => {
+                                    let _ = stream.write_all(
+                                        format!("HTTP/1.1 200 OK\r\nContent-Type: application/octet-stream\r\nContent-Length: {}\r\nConnection: close\r\n\r\n", b.len())
+                                            .as_bytes(),
+                                    );
+                                    // several small writes: the client sees the body as a stream of chunks
+                                    for piece in b.chunks(700) {
+                                        if stream.write_all(piece).is_err() {
+                                            break;
+                                        }
+                                        let _ = stream.flush();
+                                    }
+                                }
+                                None => {
+                                    let _ = stream.write_all(b"HTTP/1.1 404 Not Found\r\nContent-Length: 0\r\nConnection: close\r\n\r\n");
+                                }
+                            }
+                            let _ = stream.shutdown(std::net::Shutdown::Both);
+                        }));
+                    }
+                    Err(_) => std::thread::sleep(std::time::Duration::from_micros(300)),
+                }
+            }
+            for w in workers {
+                let _ = w.join();
+            }
+        });
+        Some(MirrorServer { base: format!("http://127.0.0.1:{port}"), stop, handle: Some(handle) })
+    }
+}
+
+impl Drop for MirrorServer {
+    fn drop(&mut self) {
+        self.stop.store(true, std::sync::atomic::Ordering::SeqCst);
+        if let Some(h) = self.handle.take() {
+            let _ = h.join();
+        }
+    }
 }
 
 // ------------------------------------------------------------------------------------------------
@@ -1029,9 +1147,11 @@ fn judge(
     world_before: &BTreeMap<String, Node>,
     world_after: &BTreeMap<String, Node>,
     result: &Result<(), String>,
+    abortable: bool,
     v: &mut Verdicts,
 ) {
     let ok = result.is_ok();
+    let beacon = c.beacon.clamp(1, 6) as u64;
     let allowed = |path: &str, node: &Node| -> bool {
         if is_requested_immutable(path, w.requested) && !matches!(node, Node::Dir) {
             return true;
@@ -1056,12 +1176,20 @@ fn judge(
     let attribute = |path: &str| -> &'static str {
         let top = path.split('/').next().unwrap_or("");
         if top.starts_with("ancillary-") && !before.contains_key(top) {
-            return "ancillary-temp-dir-left-behind";
+            // several downloads in flight + one of them failing = the documented abort path (narrower key)
+            return if abortable && !ok { "ancillary-temp-dir-left-after-abort" } else { "ancillary-temp-dir-left-behind" };
         }
         match w.carried.get(path) {
             Some(Origin::Imm) => {
                 if looks_like_immutable_file(path) {
-                    "immutable-file-outside-requested-range"
+                    // what the client's clean-up tolerates: numbers 0..=beacon (+1 with the ancillary option) and
+                    // names that existed before the download (these are overwritten in place)
+                    let n: u64 = path["immutable/".len()..].split('.').next().and_then(|x| x.parse().ok()).unwrap_or(u64::MAX);
+                    if n <= beacon + c.include_ancillary as u64 || before.contains_key(path) {
+                        "immutable-file-outside-requested-range"
+                    } else {
+                        "immutable-file-beyond-beacon-kept"
+                    }
                 } else if path.starts_with("immutable/") {
                     "unexpected-entry-in-immutable-dir-kept"
                 } else {
@@ -1086,6 +1214,7 @@ fn judge(
     };
 
     // (1) everything new or changed must be allowed
+    let mut offenders: BTreeMap<&'static str, Vec<String>> = BTreeMap::new();
     for (path, node) in after {
         if matches!(node, Node::Dir) {
             continue;
@@ -1096,13 +1225,21 @@ fn judge(
         if allowed(path, node) {
             continue;
         }
-        let was = before.get(path);
-        let key = attribute(path);
+        let was = match before.get(path) {
+            None => String::new(),
+            Some(b) => format!(" (before: {b:?})"),
+        };
+        offenders.entry(attribute(path)).or_default().push(format!("`{path}` = {node:?}{was}"));
+    }
+    for (key, paths) in offenders {
+        let n = paths.len();
+        let shown: Vec<String> = paths.into_iter().take(5).collect();
         v.add(
             key,
             format!(
-                "after download_unpack (result {}) the target holds `{path}` = {node:?} (before: {was:?}) which is neither a requested immutable file, a bootstrap marker nor vouched by the signed manifest",
-                if ok { "Ok".to_string() } else { format!("Err({})", short(result)) }
+                "after download_unpack (result {}) the target holds {n} file(s) that are neither a requested immutable file, a bootstrap marker nor vouched by the signed manifest: {}",
+                if ok { "Ok".to_string() } else { format!("Err({})", short(result)) },
+                shown.join(", ")
             ),
         );
     }
@@ -1113,11 +1250,10 @@ fn judge(
         }
         match after.get(path) {
             Some(n) if n == node => {}
-            Some(n) if allowed(path, n) => {}
-            Some(_) => {} // already reported by (1)
-            None => {
+            Some(Node::Dir) | None => {
                 v.add("user-file-removed", format!("pre-existing `{path}` ({node:?}) no longer exists after download_unpack"));
             }
+            Some(_) => {} // overwritten: either allowed or already reported by (1)
         }
     }
     // (3) nothing outside of the target directory
@@ -1133,7 +1269,12 @@ fn judge(
                 diff.push(format!("{p} removed"));
             }
         }
-        v.add("file-written-outside-target-dir", format!("the directory around the target changed: {}", diff.join(", ")));
+        // narrower key for the one known way out: the final move of verified ancillary files follows a symlink
+        let via_symlink = matches!(after.get("ledger"), Some(Node::Symlink(_))) && diff.iter().all(|d| d.starts_with("ldir/"));
+        v.add(
+            if via_symlink { "ancillary-move-follows-symlink-out-of-target" } else { "file-written-outside-target-dir" },
+            format!("the directory around the target changed: {}", diff.join(", ")),
+        );
     }
 }
 
@@ -1144,26 +1285,55 @@ fn short(r: &Result<(), String>) -> String {
     }
 }
 
+/// Cases in which a task can fail (the others are then aborted at an arbitrary point) or in which two archives
+/// write the same path are run with `max_parallel_downloads = 1` (tasks then run strictly in the order immutables
+/// ascending, ancillary last), so that the verdict is a function of the case. The abort of in-flight downloads
+/// is explored separately, with explicit synchronisation, in the `abort-inflight` section.
 fn order_sensitive(c: &Case) -> bool {
+    let free = |k: &Extra| {
+        matches!(
+            k,
+            Extra::LedgerFlat
+                | Extra::LedgerNested
+                | Extra::Volatile
+                | Extra::TopFile
+                | Extra::TopDirFile
+                | Extra::NestedImm
+                | Extra::ImmOdd
+                | Extra::MarkerClean
+                | Extra::MarkerMagic
+                | Extra::ManifestName
+                | Extra::AbsWorld
+                | Extra::DotDot
+                | Extra::DotDotDeep
+                | Extra::SymlinkOut
+        )
+    };
+    let has = |k: Extra| c.imm_extras.iter().any(|e| e.kind == k);
     !c.faults.is_empty()
         || c.anc.alter != Alter::None
-        || c.imm_extras.iter().any(|e| {
-            matches!(
-                e.kind,
-                Extra::ImmNumber(..)
-                    | Extra::ShadowVouched(_)
-                    | Extra::SymlinkDirThenWrite
-                    | Extra::SymlinkLedgerDivert
-                    | Extra::HardlinkUser
-                    | Extra::SymlinkNamedImm
-            )
-        })
+        || c.imm_extras.iter().any(|e| !free(&e.kind))
+        || (has(Extra::LedgerFlat) && has(Extra::LedgerNested))
 }
 
 fn case_fn(c: &Case, known: &BTreeSet<String>) -> Report {
+    evaluate(c, known).0
+}
+
+/// returns the report and the keys of all violated classes
+fn evaluate(c: &Case, known: &BTreeSet<String>) -> (Report, BTreeSet<String>) {
     let mut rep = Report::new();
     let scratch = Scratch::new("c19");
-    let mut w = build_world(c, scratch.path(), &mut rep);
+    let server = if c.http { MirrorServer::start(scratch.path()) } else { None };
+    if c.http && server.is_none() {
+        rep.discard("no loopback port available");
+        return (rep, BTreeSet::new());
+    }
+    if c.http {
+        rep.label("transport:http");
+    }
+    let mut w = build_world(c, scratch.path(), server.as_ref().map(|s| s.base.as_str()), &mut rep);
+    w.fresh_client = c.http;
     let sequential = order_sensitive(c);
     w.options.max_parallel_downloads = if sequential { 1 } else { c.parallel.max(1) as usize };
 
@@ -1190,7 +1360,7 @@ fn case_fn(c: &Case, known: &BTreeSet<String>) -> Report {
     let world_before: BTreeMap<String, Node> =
         walk(&w.world).into_iter().filter(|(p, _)| p != "db" && !p.starts_with("db/")).collect();
 
-    let result = match run_client(&w) {
+    let result = match run_client(&w, || ()) {
         Ok(r) => r,
         Err(panic) => {
             rep.label("client-panicked");
@@ -1200,7 +1370,7 @@ fn case_fn(c: &Case, known: &BTreeSet<String>) -> Report {
     if let Err(e) = &result {
         if e.starts_with("HARNESS") {
             rep.violation("harness-error", e.clone());
-            return rep;
+            return (rep, BTreeSet::new());
         }
     }
     let after = walk(&w.target);
@@ -1216,7 +1386,7 @@ fn case_fn(c: &Case, known: &BTreeSet<String>) -> Report {
     }
 
     let mut v = Verdicts { list: vec![] };
-    judge(c, &w, &before, &after, &world_before, &world_after, &result, &mut v);
+    judge(c, &w, &before, &after, &world_before, &world_after, &result, w.options.max_parallel_downloads > 1, &mut v);
 
     // positive control
     let transport_only = c.faults.iter().all(|f| !matches!(f, Fault::MoveBlockedByDir | Fault::LedgerIsFile));
@@ -1285,7 +1455,210 @@ fn case_fn(c: &Case, known: &BTreeSet<String>) -> Report {
         let all: BTreeSet<&str> = v.list.iter().map(|(k, _)| k.as_str()).collect();
         rep.violation(k.clone(), format!("{what} [all violated classes in this case: {all:?}] case={c:?}"));
     }
+    let keys = v.list.iter().map(|(k, _)| k.clone()).collect();
+    (rep, keys)
+}
+
+fn witness_base() -> Case {
+    Case {
+        seed: 7,
+        beacon: 2,
+        range: RangeSpec::Full,
+        include_ancillary: false,
+        allow_override: false,
+        zstd: true,
+        parallel: 1,
+        network: 2,
+        mirror2: 0,
+        pre: vec![],
+        imm_extras: vec![],
+        anc: AncSpec { layout: 1, alter: Alter::None, extras: vec![], manifest_first: false },
+        faults: vec![],
+        http: false,
+    }
+}
+
+// ------------------------------------------------------------------------------------------------
+// abort of an in-flight ancillary download (explicitly synchronised fault sequence)
+// ------------------------------------------------------------------------------------------------
+
+/// The mirror serves the ancillary archive slowly (a FIFO fed by the harness: the first `stall_after` entries, then
+/// it stalls) and the archive of one immutable file turns out to be garbage *while* the ancillary download is in
+/// flight (the harness feeds that FIFO only once it has seen unpacked ancillary entries on disk). The client then
+/// aborts all running downloads. Same oracle as everywhere else.
+#[derive(Clone, Debug, Serialize, Deserialize)]
+struct AbortCase {
+    seed: u64,
+    beacon: u8,
+    fail_ix: u16,
+    stall_after: u16,
+    layout: u8,
+    evil: bool,
+    manifest_first: bool,
+    user_file: bool,
+}
+
+const O_NONBLOCK_LINUX: i32 = 0o4000;
+
+fn open_fifo_writer(path: &Path, give_up: &std::sync::atomic::AtomicBool) -> Option<std::fs::File> {
+    use std::os::unix::fs::OpenOptionsExt;
+    use std::sync::atomic::Ordering;
+    // a non-blocking open for writing fails (ENXIO) until the client has opened the FIFO for reading
+    for _ in 0..20_000 {
+        if give_up.load(Ordering::SeqCst) {
+            return None;
+        }
+        match std::fs::OpenOptions::new().write(true).custom_flags(O_NONBLOCK_LINUX).open(path) {
+            Ok(f) => return Some(f),
+            Err(_) => std::thread::sleep(std::time::Duration::from_micros(500)),
+        }
+    }
+    None
+}
+
+fn temp_dir_has_file(target: &Path) -> bool {
+    let Ok(rd) = std::fs::read_dir(target) else { return false };
+    for e in rd.flatten() {
+        if e.file_name().to_string_lossy().starts_with("ancillary-") {
+            let m = walk(&e.path());
+            if m.values().any(|n| !matches!(n, Node::Dir)) {
+                return true;
+            }
+        }
+    }
+    false
+}
+
+fn abort_case_fn(a: &AbortCase, known: &BTreeSet<String>) -> Report {
+    use std::sync::atomic::{AtomicBool, Ordering};
+    let mut rep = Report::new();
+    let base = Case {
+        seed: a.seed,
+        beacon: a.beacon.clamp(1, 4),
+        range: RangeSpec::Full,
+        include_ancillary: true,
+        allow_override: false,
+        zstd: true,
+        parallel: 20,
+        network: 2,
+        mirror2: 0,
+        pre: if a.user_file { vec![Pre::TopNote] } else { vec![] },
+        imm_extras: vec![],
+        anc: AncSpec {
+            layout: a.layout,
+            alter: if a.evil { Alter::SigOtherKey(true) } else { Alter::None },
+            extras: vec![],
+            manifest_first: a.manifest_first,
+        },
+        faults: vec![],
+        http: false,
+    };
+    let scratch = Scratch::new("c19a");
+    let mut w = build_world(&base, scratch.path(), None, &mut rep);
+    w.options.max_parallel_downloads = 20;
+    let fail_n = pick_index(a.fail_ix, base.beacon as usize + 1);
+    let anc_fifo = w.mirror0.join(format!("ancillary.{}", w.ext));
+    let imm_fifo = w.mirror0.join(format!("{fail_n:05}.{}", w.ext));
+    for f in [&anc_fifo, &imm_fifo] {
+        let _ = std::fs::remove_file(f);
+        let st = std::process::Command::new("mkfifo").arg(f).status();
+        if !matches!(st, Ok(s) if s.success()) {
+            rep.discard("mkfifo not available");
+            return rep;
+        }
+    }
+    // entries delivered before the mirror stalls: at least one, never the whole archive
+    let k = 1 + pick_index(a.stall_after, w.anc_offsets.len() - 1);
+    let prefix = compress(&w.anc_tar[..w.anc_offsets[k]], true);
+
+    let before = walk(&w.target);
+    let world_before: BTreeMap<String, Node> =
+        walk(&w.world).into_iter().filter(|(p, _)| p != "db" && !p.starts_with("db/")).collect();
+
+    let release = AtomicBool::new(false);
+    let inflight = AtomicBool::new(false);
+    let mut result = Ok(Ok(()));
+    std::thread::scope(|s| {
+        s.spawn(|| {
+            if let Some(mut f) = open_fifo_writer(&anc_fifo, &release) {
+                let _ = f.write_all(&prefix);
+                let _ = f.flush();
+                while !release.load(Ordering::SeqCst) {
+                    std::thread::sleep(std::time::Duration::from_micros(500));
+                }
+                drop(f);
+            }
+        });
+        s.spawn(|| {
+            if let Some(mut f) = open_fifo_writer(&imm_fifo, &release) {
+                for _ in 0..10_000 {
+                    if temp_dir_has_file(&w.target) {
+                        inflight.store(true, Ordering::SeqCst);
+                        break;
+                    }
+                    if release.load(Ordering::SeqCst) {
+                        break;
+                    }
+                    std::thread::sleep(std::time::Duration::from_micros(500));
+                }
+                let _ = f.write_all(b"this is not a compressed tar archive, the mirror serves garbage for this immutable file");
+                drop(f);
+            }
+        });
+        result = run_client(&w, || release.store(true, Ordering::SeqCst));
+        release.store(true, Ordering::SeqCst);
+    });
+    let result = match result {
+        Ok(r) => r,
+        Err(panic) => {
+            rep.label("client-panicked");
+            Err(format!("panic: {panic}"))
+        }
+    };
+    if let Err(e) = &result {
+        if e.starts_with("HARNESS") {
+            rep.violation("harness-error", e.clone());
+            return rep;
+        }
+    }
+    let after = walk(&w.target);
+    let world_after: BTreeMap<String, Node> =
+        walk(&w.world).into_iter().filter(|(p, _)| p != "db" && !p.starts_with("db/")).collect();
+    if !inflight.load(Ordering::SeqCst) {
+        rep.label("abort:ancillary-not-inflight");
+        rep.discard("the ancillary download was not in flight when the immutable download failed");
+        return rep;
+    }
+    rep.label("abort:ancillary-inflight");
+    rep.label(if result.is_ok() { "result:ok" } else { "result:err" });
+    rep.nontrivial(format!("abort b{} fail{} k{} L{} evil={} mf={} uf={}", base.beacon, fail_n, k, a.layout % 3, a.evil, a.manifest_first, a.user_file));
+    let mut v = Verdicts { list: vec![] };
+    judge(&base, &w, &before, &after, &world_before, &world_after, &result, true, &mut v);
+    if result.is_ok() {
+        v.add("download-ok-despite-garbage-immutable", format!("download_unpack returned Ok although the only location of immutable {fail_n} served garbage"));
+    }
+    if let Some((k, what)) = v.list.iter().find(|(k, _)| !known.contains(k)).or(v.list.first()) {
+        rep.violation(k.clone(), format!("{what} case={a:?}"));
+    }
     rep
+}
+
+fn abort_cases(seed: u64, n: u32) -> Vec<AbortCase> {
+    (0..n as u64)
+        .map(|i| {
+            let r = vcore::mix(seed, 0xAB07 + i);
+            AbortCase {
+                seed: vcore::mix(r, 1),
+                beacon: 1 + (i % 3) as u8,
+                fail_ix: (r >> 8) as u16,
+                stall_after: (r >> 24) as u16,
+                layout: ((r >> 40) % 3) as u8,
+                evil: i % 2 == 1,
+                manifest_first: (r >> 44) & 1 == 1,
+                user_file: (r >> 45) & 1 == 1,
+            }
+        })
+        .collect()
 }
 
 // ------------------------------------------------------------------------------------------------
@@ -1455,8 +1828,8 @@ fn case_strategy(flavor: Flavor) -> impl Strategy<Value = Case> {
             Flavor::Faults => (0u8..3).boxed(),
             _ => prop_oneof![4 => Just(0u8), 1 => Just(1u8)].boxed(),
         };
-        (range, pre_strategy(allow_override), imm_extras_strategy(n_extras), altered_s, faults, mirror2).prop_flat_map(
-            move |(range, pre, imm_extras, altered, faults, mirror2)| {
+        (range, pre_strategy(allow_override), imm_extras_strategy(n_extras), altered_s, faults, mirror2, prop::bool::weighted(0.06)).prop_flat_map(
+            move |(range, pre, imm_extras, altered, faults, mirror2, http)| {
                 let pre = pre.clone();
                 let imm_extras = imm_extras.clone();
                 let faults = faults.clone();
@@ -1475,6 +1848,7 @@ fn case_strategy(flavor: Flavor) -> impl Strategy<Value = Case> {
                     imm_extras: imm_extras.clone(),
                     anc,
                     faults: faults.clone(),
+                    http,
                 })
             },
         )
@@ -1485,7 +1859,11 @@ fn case_strategy(flavor: Flavor) -> impl Strategy<Value = Case> {
 // entry point
 // ------------------------------------------------------------------------------------------------
 
-const KEYS: [&str; 12] = [
+const KEYS: [&str; 16] = [
+    "ancillary-temp-dir-left-after-abort",
+    "immutable-file-beyond-beacon-kept",
+    "ancillary-move-follows-symlink-out-of-target",
+    "download-ok-despite-garbage-immutable",
     "immutable-archive-writes-outside-immutable-dir",
     "immutable-file-outside-requested-range",
     "unexpected-entry-in-immutable-dir-kept",
@@ -1546,13 +1924,62 @@ pub fn run(args: &Args) -> i32 {
         "fault:corrupt-archive",
         "fault:move-blocked",
         "two-mirrors",
+        "abort:ancillary-inflight",
+        "transport:http",
     ] {
         check.require_label(l);
     }
     let known: BTreeSet<String> = KEYS.iter().filter(|k| check.has_open_known(k)).map(|k| k.to_string()).collect();
     let t = check.tier;
-    check.section("honest", || case_strategy(Flavor::Honest), t.pick(240, 6_000), |c| case_fn(c, &known));
-    check.section("archives", || case_strategy(Flavor::Archives), t.pick(900, 30_000), |c| case_fn(c, &known));
-    check.section("faults", || case_strategy(Flavor::Faults), t.pick(480, 14_000), |c| case_fn(c, &known));
+    check.section("honest", || case_strategy(Flavor::Honest), t.pick(400, 10_000), |c| case_fn(c, &known));
+    check.section("archives", || case_strategy(Flavor::Archives), t.pick(2_400, 60_000), |c| case_fn(c, &known));
+    check.section("faults", || case_strategy(Flavor::Faults), t.pick(1_200, 30_000), |c| case_fn(c, &known));
+    // dedicated minimal reproductions of the finding classes (known-finding witnesses)
+    let none = BTreeSet::new();
+    let fails = |c: Case, key: &str| evaluate(&c, &none).1.contains(key);
+    check.witness(
+        "immutable-archive-writes-outside-immutable-dir",
+        "an immutable archive that also carries `ledger/4242` leaves that file in the restored database",
+        || fails(Case { imm_extras: vec![ImmExtra { arch: 0, kind: Extra::LedgerFlat, first: false }], ..witness_base() }, "immutable-archive-writes-outside-immutable-dir"),
+    );
+    check.witness(
+        "immutable-file-outside-requested-range",
+        "range 2..=2 requested: the archive of immutable 2 also carries `immutable/00000.chunk`, which is kept",
+        || {
+            fails(
+                Case { range: RangeSpec::From(u16::MAX), imm_extras: vec![ImmExtra { arch: 0, kind: Extra::ImmNumber(0, 0), first: false }], ..witness_base() },
+                "immutable-file-outside-requested-range",
+            )
+        },
+    );
+    check.witness(
+        "manifest-entry-splicing-accepted",
+        "manifest entries (ledger/a,h1),(ledger/b,h2) replaced by the single entry (ledger/a+h1+ledger/b, h2) still verify under the original signature",
+        || {
+            fails(
+                Case { include_ancillary: true, anc: AncSpec { layout: 1, alter: Alter::MergeAdjacent(0), extras: vec![], manifest_first: false }, ..witness_base() },
+                "manifest-entry-splicing-accepted",
+            )
+        },
+    );
+    check.witness(
+        "ancillary-move-follows-symlink-out-of-target",
+        "an immutable archive delivers a symlink `ledger` -> directory outside the target; the verified ledger files are then moved there",
+        || {
+            fails(
+                Case { include_ancillary: true, imm_extras: vec![ImmExtra { arch: 0, kind: Extra::SymlinkLedgerDivert, first: false }], ..witness_base() },
+                "ancillary-move-follows-symlink-out-of-target",
+            )
+        },
+    );
+    check.witness(
+        "ancillary-temp-dir-left-after-abort",
+        "an immutable download fails while the ancillary download is in flight: `ancillary-<id>/` with unverified files stays in the target",
+        || {
+            let a = AbortCase { seed: 7, beacon: 2, fail_ix: 0, stall_after: 0, layout: 0, evil: true, manifest_first: false, user_file: false };
+            matches!(abort_case_fn(&a, &none).outcome, vcore::Outcome::Violation { ref key, .. } if key == "ancillary-temp-dir-left-after-abort")
+        },
+    );
+    check.enumerate("abort-inflight", abort_cases(check.seed, t.pick(64, 1_600)).into_iter(), false, |a| abort_case_fn(a, &known));
     check.finish()
 }
